@@ -141,9 +141,29 @@ def build(case, keep):
 	from httoop import Request, Response
 	from httoop.semantic.request import ComposedRequest
 	from httoop.semantic.response import ComposedResponse
-	if case['k'] == 'req':
+	# two ways of building the same message through the public API: attribute assignment after construction, or (for one case in
+	# three, chosen by a checksum of the case so that a replay builds it the same way) headers, body and protocol as constructor arguments
+	import json as _json
+	import zlib as _zlib
+	names = [n.lower() for n, _ in case.get('hdrs', [])]
+	ctor = case.get('ctor')
+	if ctor is None:
+		ctor = _zlib.crc32(_json.dumps(case, sort_keys=True, default=str).encode()) % 3 == 0
+	ctor = bool(ctor) and len(set(names)) == len(names) and not case.get('trailer') and not case.get('coding')
+	if ctor:
+		hd = dict((name, bytes.fromhex(value)) for name, value in case.get('hdrs', []))
+		content = _content(case['body'], keep)
+		if case['k'] == 'req':
+			m = Request(case['method'], '/', hd, content, tuple(case['version']))
+		else:
+			m = Response(None, hd, content, tuple(case['version']))
+	elif case['k'] == 'req':
 		m = Request(case['method'], '/')
 		m.protocol = tuple(case['version'])
+	else:
+		m = Response()
+		m.protocol = tuple(case['version'])
+	if case['k'] == 'req':
 		u = m.uri
 		if case.get('host'):
 			u.scheme = case.get('scheme', 'http')
@@ -155,17 +175,16 @@ def build(case, keep):
 			u.query = [tuple(p) for p in case['query']]
 		c = ComposedRequest(m)
 	else:
-		m = Response()
 		if case.get('reason') is None:
 			m.status = case['status']
 		else:
 			m.status = (case['status'], case['reason'])
-		m.protocol = tuple(case['version'])
 		rq = Request(case.get('rmethod', 'GET'), '/')
 		c = ComposedResponse(m, rq)
-	for name, value in case.get('hdrs', []):
-		m.headers[name] = bytes.fromhex(value)
-	m.body = _content(case['body'], keep)
+	if not ctor:
+		for name, value in case.get('hdrs', []):
+			m.headers[name] = bytes.fromhex(value)
+		m.body = _content(case['body'], keep)
 	for name, value in case.get('trailer', []):
 		m.body.trailer[name] = bytes.fromhex(value)
 	if case.get('coding'):
